@@ -30,7 +30,7 @@ CHECKS = [
         "side (Event.to_event_input, events_to_event_inputs, save_events_to_file, load_events_from_file over a ghost file system) writes one entry per "
         "event with one (type, count) list per successor / predecessor multiset and no other, and the lemmas rep_count / entries_denote / "
         "written_lists_denote / same_denotation_same_sets / model_round_trip give: the events loaded from what was written have the same types and the "
-        "same successor and predecessor multisets (80+ clauses in contracts/c04.py, 8 in contracts/c04_eventset.py). A mechanical scan "
+        "same successor and predecessor multisets (93 clauses in contracts/c04.py; 21 in contracts/c04_eventset.py: the concrete EventSet under the dict view and get_event_set_counts, the counts each successor type was seen with). A mechanical scan "
         "of tel2puml/** turns every syntactic mutation site of event_sets / the cached tree into an obligation `Event.frame@<function>` that must be "
         "covered by such a contract. BOUNDED complement (not counted as proved): on the real code with real model files, for all job sets of <= 3 jobs "
         "from a 9-job family (incl. jobs started by two events in parallel) and every split into save -> load -> continue, the final model has the event types, sets, counts and gate trees of the "
